@@ -24,6 +24,7 @@ ReprFails(e) ==
       rej(name) == e[name \o "_err"] = "error"
   IN  Tag(/\ e.text = Hex(e.val) /\ e.bin = Rev(e.val) /\ e.dbval = e.val
           /\ e.text_kept = e.text /\ e.bin_kept = e.bin            \* still so after other identifiers were marshalled
+          /\ okv("untext_used") /\ okv("untext0x_used") /\ okv("unbin_used") /\ okv("scan_used")   \* decoding into a variable that held another identifier
           /\ okv("untext") /\ okv("untext0x") /\ okv("untextupper") /\ okv("unbin") /\ okv("scan")
           /\ rej("untext_short") /\ rej("untext_long") /\ rej("untext_odd") /\ rej("untext_bad")
           /\ rej("unbin_short") /\ rej("unbin_long") /\ rej("scan_short") /\ rej("scan_long") /\ rej("scan_string"), "C11.repr")
